@@ -2,6 +2,7 @@ import Driver.Util
 import CtyModel.ConvertSet
 import CtyModel.ConvertUnify
 import CtyModel.ConvertSpec
+import CtyModel.ConvertD08Env
 open CtyModel
 open CtyModel.Convert
 
@@ -16,10 +17,11 @@ open CtyModel.Convert
 * `cv.judge <value> <type> <result>`     → `pass` | `fail <clause>*` (property predicates on real outputs)
 * `cv.admits <result> <result'>`         → `1|0`  (refinement of an unknown result admits a concrete result) -/
 
-def unifyFuel : Nat := 48
 def applyFuel : Nat := 64
 
-def cvEnv : Env := Env.concrete (unifyTyF unifyFuel)
+/-- the environment the C08 theorems' `…_driver` corollaries are stated for (`Convert.driverEnv`:
+`UnifyLaws` and `SetLaws` are proved of it) -/
+def cvEnv : Env := Convert.driverEnv
 
 def cvValRes (r : Res Value) : String := resTag (fun v => toString v.toSexp) r
 
